@@ -15,6 +15,10 @@ claimed = {
  "C04": e1("Every broadcast and every view increase in the explored space is checked against the node's exported Context at that instant (proposal origin, transactions, verification verdict, M preparations naming the proposal, M change views for the entered view from the monitor's own record).", "4 C04"),
  "C07": e1("Per-node callback order (PreCommit, ProcessPreBlock, Commit, NewBlockFromContext/Sign, ProcessBlock) is checked in every explored execution with anti-MEV on, switching on at the second height, and off, including failing ProcessPreBlock and Byzantine pre-commits.", "4 C07"),
  "C10": e1("After every API call of every explored execution the virtual timer of each undecided validator is compared with the node's (height, view); nested view changes during cached-payload replay are reached through the silent-primary bases and replay-order deviations.", "4 C10"),
+ "C08": e1("Timed mode (virtual clock, zero-delay network = every message delivered before the next timer expires), all validators honest: every delivery order / duplicate / delayed Reset / held message / cached-payload replay order within <=k deviations of FIFO for N=1..7, every interleaving at two focus nodes for N=4; oracle: every node decides every height in view 0 on one hash, no ChangeView or RecoveryRequest is ever broadcast, no stuck terminal state.", "4 C08"),
+ "C13": e1("A watch-only member (flag at every validator position, or outside the list) is explored in closed-world runs and alone against the unconstrained E2 environment alphabet; the oracle is zero Broadcast / Sign / SetData calls in every state.", "4 C13"),
+ "C16": e1("Timed mode with the maximum-block-time extension: 170 scenarios (ratios, N, instants at which a transaction appears, anti-MEV) each explored with <=k deviations in delivery/notification order; oracle on virtual-time stamps of proposals, subscription calls and absence of ChangeView/RecoveryRequest; control group without the extension.", "4 C16"),
+ "C17": dict(level="model_checking", engine="E5", technique="stateless exploration of delivery schedules (deviation-bounded) of the real simulation program under testing/synctest with harness-controlled channels and virtual time", text="The real package main of internal/simulation (real Run goroutines, Broadcast, ProcessBlock, timer.Timer) is executed in a synctest bubble where the harness alone decides which pending payload is delivered next and when a virtual second passes; all schedules with <=1 (quick) / <=2 (thorough) deviations (queue jump, hold until quiescence, early second) are executed for validator counts 1..7, watchers, blocked validator; plus a free-running -race pass.", note="Trusted: go1.26.8 testing/synctest; the independence argument for node goroutines between harness steps (they share only the channels the harness serialises).", design="4 C17"),
  "C06": dict(level="exploration", engine="E3", technique="exhaustive enumeration of the finite argument domain on the real Context (small-scope model checking of a pure function)", text="F, M, GetPrimaryIndex are pure functions of (N, height, view); the whole domain N=1..65535 x 256 views x boundary heights is enumerated (thorough) and compared with independent big-integer arithmetic, so the claim is exhaustive for the stated domain rather than sampled.", note="Trusted: the independent arithmetic in the checker; for N above the Start threshold the Context is populated through exported fields (the functions read nothing else).", design="4 C06"),
  "C15": dict(level="exploration", engine="E3", technique="exhaustive enumeration of a finite input grid, each point one real Start/OnReceive/Reset/OnTimeout drive of the implementation", text="The full cross product of increments, previous timestamps, clock readings, pool lists, heights, views, N, anti-MEV and dynamic-block-time settings is driven through the real primary code path and every broadcast proposal is compared with the constructor arguments, the Context and the primary's own block.", note="Trusted: harness application (pool, virtual clock); reading of 'whenever that is larger' documented in evidence assumptions.", design="4 C15"),
  "C19": dict(level="exploration", engine="E6", technique="small-scope exhaustive enumeration (all payloads/blocks over tiny field domains, all pairs, all single-byte corruptions, all byte strings to a length) on the real reference codec/crypto/merkle code", text="Hash binding, codec round trip, decoder robustness, signature and Merkle properties are universally quantified over inputs; within the small scope every input is enumerated and compared pairwise / against the original, so nothing is sampled.", note="Trusted: Go gob/ecdsa; content keys built by the checker; one process (gob type ids). Known finding D8 listed in known_findings.json.", design="4 C19"),
